@@ -501,6 +501,9 @@ func BaseStubs() map[string]StubFn {
 			}
 			s := stream
 			if first == 1 {
+				if writeToBuilder(a[0], out) {
+					return tuple{lenV(out), iface{}}
+				}
 				s = streamName(a[0])
 			}
 			r.Effects = append(r.Effects, Effect{Op: "print:" + s, Args: []value{out}})
@@ -521,6 +524,9 @@ func BaseStubs() map[string]StubFn {
 	}
 	st["fmt.Fprintf"] = func(r *Run, fr *frame, fn *ssa.Function, a []value) value {
 		out := r.sprintf(a[1].(string), variadic(a[2]))
+		if writeToBuilder(a[0], out) {
+			return tuple{lenV(out), iface{}}
+		}
 		r.Effects = append(r.Effects, Effect{Op: "print:" + streamName(a[0]), Args: []value{out}})
 		return tuple{lenV(out), iface{}}
 	}
@@ -642,6 +648,34 @@ func lenV(v value) value {
 		return termOrInt(StrLen(x))
 	}
 	return 0
+}
+
+// writeToBuilder appends out to an interpreter-side *strings.Builder / *bytes.Buffer standing
+// behind the io.Writer w; any other interpreter-side writer is outside the encoder.
+func writeToBuilder(w value, out value) bool {
+	iv, ok := w.(iface)
+	if !ok {
+		return false
+	}
+	wp, ok := iv.v.(*value)
+	if !ok {
+		return false
+	}
+	tn := ""
+	if iv.t != nil {
+		tn = iv.t.String()
+	}
+	switch {
+	case strings.HasSuffix(tn, "strings.Builder"):
+		s := builderSlot(wp, 1)
+		*s = concatV(slotStr(s), out)
+	case strings.HasSuffix(tn, "bytes.Buffer"):
+		s := builderSlot(wp, 0)
+		*s = concatV(slotStr(s), out)
+	default:
+		panic(unsupported("fmt.Fprint* to an interpreter-side writer of type " + tn))
+	}
+	return true
 }
 
 func streamName(w value) string {
